@@ -67,3 +67,26 @@ package store
 //@   requires [txn] txn != nil
 //@   nopanic
 //@   precall github.com/dgraph-io/badger/v3.Txn.Delete#0 [same-key] $arg0 == key
+
+// ---- the mongo store: Get and Delete address the document whose key is the cache key ------------
+//@ immutable mongoStore: client, db, timeout
+//@ func (ms *mongoStore) collection() (coll *mongo.Collection)
+//@   requires [recv] ms != nil && ms.client != nil
+//@   nopanic
+//@   modifies nothing
+//@   ensures [handle] coll != nil
+//@ func (ms *mongoStore) Delete(key []byte) (err error)
+//@   requires [recv] ms != nil && ms.client != nil
+//@   nopanic
+//@   precall go.mongodb.org/mongo-driver/mongo.Collection.DeleteOne#0 [same-key] typeis($arg1, "*mongoCache") && unbox($arg1, "*mongoCache").Key == b2s(contents(key)) && len(unbox($arg1, "*mongoCache").Data) == 0
+//@ func (ms *mongoStore) Get(key []byte) (data []byte, err error)
+//@   requires [recv] ms != nil && ms.client != nil
+//@   nopanic
+//@   modifies heap
+//@   precall go.mongodb.org/mongo-driver/mongo.Collection.FindOne#0 [same-key] typeis($arg1, "*mongoCache") && unbox($arg1, "*mongoCache").Key == b2s(contents(key)) && len(unbox($arg1, "*mongoCache").Data) == 0
+//@ func (ms *mongoStore) Set(key []byte, data []byte, ttl time.Duration) (err error)
+//@   requires [recv] ms != nil && ms.client != nil
+//@   nopanic
+//@   precall go.mongodb.org/mongo-driver/mongo.Collection.UpdateOne#0 [same-key] typeis($arg1, "*mongoCache") && unbox($arg1, "*mongoCache").Key == b2s(contents(key)) && len(unbox($arg1, "*mongoCache").Data) == 0
+//@   precall go.mongodb.org/mongo-driver/mongo.Collection.UpdateOne#0 [upsert] len($arg3) == 1 && $arg3[0] != nil && $arg3[0].Upsert != nil && deref($arg3[0].Upsert)
+//@   precall go.mongodb.org/mongo-driver/mongo.Collection.UpdateOne#0 [document] typeis($arg2, "bson.M") && has(unbox($arg2, "bson.M"), "$set") && typeis(unbox($arg2, "bson.M")["$set"], "*mongoCache") && unbox(unbox($arg2, "bson.M")["$set"], "*mongoCache").Key == b2s(contents(key)) && unbox(unbox($arg2, "bson.M")["$set"], "*mongoCache").Data == data
